@@ -547,24 +547,28 @@ impl RefTri {
             }
         }
         // interior: perspective-correct barycentrics from the 3x3 system
-        let Some((attr, w, z)) = self.eval_at(sc, c) else { return PixClass::Ambiguous };
+        let Some((attr, w, z)) = self.eval_at(sc, c, true) else { return PixClass::Ambiguous };
         // near-coplanar with the near/far plane: ambiguous (f32 rounding decides)
         if (w - z.abs()) / w < 1e-4 {
             return PixClass::Ambiguous;
         }
-        // screen-space gradients by one-sided differences over half a pixel
+        // screen-space gradients (per pixel) by differences over 1/64 px of the triangle's plane (extrapolated if need be)
         let (mut g_attr, mut g_rz) = (0.0f64, 0.0f64);
-        for d in [[0.5, 0.0], [0.0, 0.5], [-0.5, 0.0], [0.0, -0.5]] {
-            if let Some((a2, w2, _)) = self.eval_at(sc, [c[0] + d[0], c[1] + d[1]]) {
-                g_attr = g_attr.max((a2 - attr).abs() * 2.0);
-                g_rz = g_rz.max((1.0 / w2 - 1.0 / w).abs() * 2.0);
+        const H: f64 = 1.0 / 64.0;
+        for d in [[H, 0.0], [0.0, H], [-H, 0.0], [0.0, -H]] {
+            match self.eval_at(sc, [c[0] + d[0], c[1] + d[1]], false) {
+                Some((a2, w2, _)) => {
+                    g_attr = g_attr.max((a2 - attr).abs() / H);
+                    g_rz = g_rz.max((1.0 / w2 - 1.0 / w).abs() / H);
+                }
+                None => return PixClass::Ambiguous, // w changes sign within 1/64 px: hopelessly steep
             }
         }
         PixClass::In { attr, rz: 1.0 / w, g_attr, g_rz }
     }
 
     /// attribute, w and z of the triangle's plane at screen position c (None where w <= 0 or the system is singular)
-    fn eval_at(&self, sc: &Scene, c: P2) -> Option<(f64, f64, f64)> {
+    fn eval_at(&self, sc: &Scene, c: P2, inside_only: bool) -> Option<(f64, f64, f64)> {
         let [nx, ny] = to_ndc(sc, c);
         let p = &self.clip;
         let m = [
@@ -575,7 +579,7 @@ impl RefTri {
         let l = solve3(m, [0.0, 0.0, 1.0])?;
         let w = l[0] * p[0][3] + l[1] * p[1][3] + l[2] * p[2][3];
         let z = l[0] * p[0][2] + l[1] * p[1][2] + l[2] * p[2][2];
-        if !(w > 0.0) || l.iter().any(|v| *v < -1e-3) {
+        if !(w > 0.0) || (inside_only && l.iter().any(|v| *v < -1e-6)) {
             return None;
         }
         let attr = l[0] * self.attr[0] + l[1] * self.attr[1] + l[2] * self.attr[2];
